@@ -150,8 +150,12 @@ def run(ctx):
         "responses) is not proved",
         "gRPC framing and the stream goroutines (select loop of Stream / StreamDeltas, channel hand-over) are outside the model; "
         "Send / sendDelta are modelled by their watch update; generators are abstract (any answer) in the theorems and scripted in the tie",
-        "recv: the outcome of handling debug / unknown / empty type URLs is that of the production generators for an unauthenticated "
-        "plaintext client (table procClass, tied on every run); authenticated debug requests are not exercised",
+        "recv: the outcome of handling debug / unknown / empty type URLs is that of the production generators for a plaintext and "
+        "for an authenticated client (table procClass, tied on every run)",
+        "delta_trace_record / dloop_quiescent_record_matches are about NAMED types (EDS, RDS, SDS, ECDS): for wildcard types every "
+        "push replaces the record by what it carries (modelled: sentNames; tied in dloop; bookkeeping is property C03)",
+        "dproc_resubscribe_silent (an ACK re-subscribing to names on record is not answered) describes /repo as it is; the oracle "
+        "treats it as an observation: answering with exactly the re-subscribed names would be accepted",
     ]
     ctx.trusted.append("pilot/pkg/xds/zz_verif_c04.go (verif-tagged accessors for shouldRespondDelta, sendDelta)")
     ctx.trusted.append("pilot/pkg/xds/zz_verif_c03.go (processRequest, processDeltaRequest, pushConnection, pushConnectionDelta on a bare server), "
@@ -239,28 +243,37 @@ def replay(ctx, path):
 MANIFEST = {
     "level_text": ("Lean 4 proof over an exact model of the request handling of pkg/xds/server.go, pilot/pkg/xds/{ads,delta,xdsgen}.go and "
                    "Proxy.NewWatchedResource. (1) Classification, all states and requests, SotW and delta: first request / reconnect / "
-                   "added names answered; ACK, NACK, stale or never-delivered nonce, unsubscribe silent; a delta subscription change on a "
-                   "NACK or stale ACK applied; never_crashes. (2) The code that answers (processRequest, pushXds, processDeltaRequest, "
-                   "pushDeltaXds, forceEDSPush, push loops) for every generator: silent classes send nothing and call no generator; an "
-                   "answered request makes one generator call on exactly the newly subscribed names (whole set on first request / "
-                   "warming), sends at most one response of its type (delta CDS: plus the forced EDS push), records the nonce iff the "
-                   "response went out; the outcome depends on the generator only through the recorded calls. (3) Receive / receiveDelta: "
-                   "no crash on any first request, a stream without a usable node is refused, after a valid first request everything is "
-                   "forwarded in order. (4) Trace level, every schedule: quiescent_record_matches (SotW closed loop), delta_trace_record "
-                   "and dloop_quiescent_record_matches (delta, changes attached to ACKs / NACKs, pushes overtaking ACKs), and no loop: "
-                   "tail_responses_bounded / dtail_responses_bounded (with the environment quiet the number of responses is bounded by the "
-                   "start state, not by the length of the run). The model is tied to /repo on every run by a line-by-line differential "
-                   "against the real functions and handlers (11 streams, incl. an exhaustive single-step enumeration)."),
+                   "added names answered; ACK, NACK for a watched type, stale nonce, unsubscribe silent; a request on a watch nothing was "
+                   "sent on is a new request; a NACK for an unwatched type is the first request; a delta subscription change on a NACK or "
+                   "stale ACK applied; never_crashes. (2) The code that answers (processRequest, pushXds, processDeltaRequest, pushDeltaXds, "
+                   "forceEDSPush, push loops) for every generator: silent classes send nothing and call no generator; an answered SotW "
+                   "subscription change makes one generator call on exactly the added names (whole set on first request / warming / "
+                   "proxyless gRPC), an answered delta request on the whole set the request subscribes to; at most one response of the "
+                   "type (delta CDS: plus the forced EDS push); the nonce is recorded iff the response went out; the outcome depends on "
+                   "the generator only through the recorded calls. (3) Receive / receiveDelta: no crash on any first request, a stream "
+                   "without a usable node is refused, after a valid first request everything is forwarded in order. (4) Trace level: "
+                   "FullStatement = the last sentence over every schedule of the SotW closed loop in which an answer is sent, has nothing "
+                   "to send, or is lost (full_statement for the code in /repo, full_statement_witness_unfixed for the code before fix "
+                   "6064924); delta_trace_record and dloop_quiescent_record_matches for NAMED delta types (changes attached to ACKs / "
+                   "NACKs, pushes overtaking ACKs); no loop: tail_responses_bounded / dtail_responses_bounded (quiet environment). (5) Type "
+                   "universe: the model's per-type predicates are proved equal (decide, table regenerated every run) to the real ones on "
+                   "every type-URL constant of the tree; every constant outside the ten modelled types has the predicate profile of NDS. "
+                   "The model is tied to /repo on every run by a line-by-line differential against the real functions and handlers "
+                   "(12 streams, incl. an exhaustive single-step enumeration)."),
     "level_note": ("Trusted: Lean kernel + {propext, Classical.choice, Quot.sound}; the hand-written model, tied by differential testing "
-                   "(~22000 cases quick, ~300000 thorough: random sequences, closed loops, real request / push handlers with recording "
-                   "generators, real Receive on a real DiscoveryServer, exhaustive single-step enumeration over a 2-3 name universe); the "
-                   "verif-tagged accessor files pilot/pkg/xds/zz_verif_c04.go, zz_verif_c03.go, zz_verif_c04b.go, pkg/xds/zz_verif_c04b.go; "
-                   "the history-keyed Go oracle (a second, independent statement of the clauses). Assumed: Envoy / ztunnel is the "
-                   "conformant client of Protocol.lean / DeltaProtocol.lean. Not modelled: gRPC framing, the select loop and goroutines of "
-                   "Stream / StreamDeltas, proxyless-gRPC narrowing, agentgateway collections; generators are abstract; debug / unknown "
-                   "types only as the outcome table of the production generators for an unauthenticated client. Not proved: a response "
-                   "bound for schedules in which the environment keeps acting (only for quiet tails), name bookkeeping of delta wildcard "
-                   "types beyond 'a removed resource leaves the record' (property C03)."),
+                   "(~22000 cases quick, ~350000 thorough); the verif-tagged accessor files pilot/pkg/xds/zz_verif_c04.go, zz_verif_c03.go, "
+                   "zz_verif_c04b.go, pkg/xds/zz_verif_c04b.go; the history-keyed Go oracle (a second, independent statement of the clauses). "
+                   "Assumed: Envoy / ztunnel is the conformant client of Protocol.lean / DeltaProtocol.lean. The closed loops (loop, dloop) "
+                   "compose the real ShouldRespond / Send / shouldRespondDelta / sendDelta with a model client; the real handlers and "
+                   "generators run in proc / dproc / recv on scripted request sequences, not inside a closed loop. Not modelled / not "
+                   "executed: gRPC framing, the select loop and goroutines of Stream / StreamDeltas (interleaving is by schedule of the "
+                   "model), computeProxyState (pushes are Endpoints-only on a bare server), findGenerator's metadata / proxy-type keyed "
+                   "lookups, agentgateway collections, LastSendTime; recv requests carry no names / nonce / initial versions; dloop has no "
+                   "initial_resource_versions; the loop stream drives one type per case (CDS->EDS warming through the real "
+                   "NewWatchedResource is in sotw / warm / proc). Not proved: a response bound for schedules in which the environment keeps "
+                   "acting; the record of delta WILDCARD types at trace level (it follows what pushes carry: property C03; here only 'the "
+                   "record is what the last response carried' and 'a removed resource leaves the record'). Observation, not a clause: a delta "
+                   "re-subscription of names already on record is not answered by /repo (the protocol would allow re-sending them)."),
     "technique": "Lean 4 theorems over an exact model of the ACK/NACK state machine and of the request / push handlers + differential correspondence with the real Go functions",
     "design_ref": "DESIGN.md section 5 C04",
 }
